@@ -60,6 +60,22 @@ def put(tag, body):
         k = t.index("### 9.6 False alarms met while building")
         t = t[:k] + block + "\n" + t[k:]
 
+# §5: harness counts per property and tier, from the harness metadata
+import collections
+q = collections.Counter(); th = collections.Counter()
+for f in glob.glob(os.path.join(V, "kani", "src", "h_*.rs")):
+    for l in open(f):
+        m = re.match(r"\s*/// @harness (.*)", l)
+        if m:
+            kv = dict(x.split("=", 1) for x in m.group(1).split())
+            for pr in kv["props"].split(","):
+                (q if kv.get("tier", "quick") == "quick" else th)[pr] += 1
+def fix_row(m):
+    pid = m.group(1)
+    if pid in q or pid in th:
+        return m.group(0)[: m.group(0).rindex("|", 0, len(m.group(0)) - 1) + 1] + f" {q[pid]} / {th[pid]} |"
+    return m.group(0)
+t = re.sub(r"(?m)^\| (C\d\d) \| claimed[^\n]*\|$", fix_row, t)
 put("S95", s95)
 put("S97", s97)
 open(p, "w").write(t)
